@@ -44,7 +44,11 @@ def main(ctx):
         c = by_id[rec["id"]]
         ic.report(ctx, "C04", rec["id"], verdicts[rec["id"]], {"case": c}, notes)
         ev.traces += 1
-        ev.evaluations += sum(len(g["at"]) for g in rec["glyphs"]) + sum(len(a["vals"]) for a in rec["metrics"])
+        ev.evaluations += 1
+        ev.extra["glyph_location_evaluations"] = ev.extra.get("glyph_location_evaluations", 0) + \
+            sum(len(g["at"]) for g in rec["glyphs"])
+        ev.extra["metric_location_evaluations"] = ev.extra.get("metric_location_evaluations", 0) + \
+            sum(len(a["vals"]) for a in rec["metrics"])
         notes["hvar_indirect" if rec["indirect"] == 1 else "hvar_direct"] += 1
         notes["vertical"] += c["vert"]
         notes["mvar_patterns"][str(c["mpat"])] = notes["mvar_patterns"].get(str(c["mpat"]), 0) + 1
